@@ -79,6 +79,12 @@ def cases(tier, seed):
                     if b == -1 and yopt == "one":
                         continue
                     yield {"k": "cli-merge", "s": list(sub), "b": b, "yopt": yopt}
+    # several notices of one holder handed over in one command, as complete notices (kept verbatim by the builder), with and without an existing header
+    same = [(i, j) for i, j in itertools.combinations(range(len(UNIVERSE)), 2) if UNIVERSE[i][2] == UNIVERSE[j][2]]
+    for i, j in same:
+        subs = [[]] + ([[k] for k in range(len(UNIVERSE))] if UNIVERSE[i][2] == U_HOLDERS[0] else [])
+        for sub in subs:
+            yield {"k": "cli-merge", "s": sub, "b": -2, "yopt": "exclude", "verbatim": [i, j]}
 
 
 def _read_groups(line):
@@ -246,7 +252,12 @@ def ev_cli_merge(c) -> R:
     (root / "f.py").write_text(head + "x = 1\n")
     argv = ["--root", str(root), "annotate", "--merge-copyrights"]
     new = []
-    if c["b"] >= 0:
+    if c.get("verbatim"):
+        for i in c["verbatim"]:
+            argv += ["--copyright", ref.build(*UNIVERSE[i])]
+            new.append(UNIVERSE[i])
+        argv += ["--exclude-year"]
+    elif c["b"] >= 0:
         argv += ["--copyright", U_HOLDERS[c["b"]]]
         if c["yopt"] == "one":
             argv += ["--year", "2018"]
